@@ -60,7 +60,14 @@ def records(wd, tier, diag=False):
             evs += [sp[(gi + k) % 6], sp[(gi + k + 3) % 6]]
         it["evs"] = evs
     groups = cf.run_y0(wd, "cstar", items, "c08")
-    vs, st, by_id = cf.judge(wd, groups, seeds=(1, 2), diag=diag)
+    vs, st, by_id = cf.judge(wd, groups, seeds=(1, 2))
+    if diag:
+        # the reference cross-tab is costly (IDCStarRef per record): a fixed eighth of the records, diagnostic only
+        sub = [dict(gr, recs=[r for k, r in enumerate(gr["recs"]) if (gi + k) % 8 == 0]) for gi, gr in enumerate(groups)]
+        dvs, _, _ = cf.judge(wd, sub, seeds=(1,), tag="tvdiag", diag=True)
+        for i, v in dvs.items():
+            if i in vs:
+                vs[i] = dict(vs[i], ref=v.get("ref"))
     return vs, st, by_id, g
 
 
@@ -73,8 +80,9 @@ def run(tier: str) -> int:
     cf.report(out, vs, by_id, skip={"vocabulary"})
     xtab = {}
     for i, v in vs.items():   # diagnostic: where y0 is wrong, does the reference IDC* answer or refuse?
-        k = f"y0:{v['clause']}/ref:{v.get('ref')}"
-        xtab[k] = xtab.get(k, 0) + 1
+        if v.get("ref") not in (None, "not-computed"):
+            k = f"y0:{v['clause']}/ref:{v.get('ref')}"
+            xtab[k] = xtab.get(k, 0) + 1
     cov = cf.coverage(vs, by_id, st, g,
                       "one record = idc_star(G, outcomes, conditions) for a split of a TLC-generated 2- or 3-atom conjunction over a "
                       "3-node ADMG (fixed deterministic family); TLC evaluates the returned expression (read with the events' values) "
